@@ -604,7 +604,7 @@ func (x *Exec) appendBuiltin(fr *Frame, ins ssa.Instruction, c *ssa.CallCommon, 
 		frame := ts.Quant("forall", []*Term{k}, ts.Implies(ts.Or(x.w.bvult(k, lo), x.w.bvule(hi, k)),
 			ts.Eq(ts.Select(nr, k), ts.Select(oldRow, k))))
 		x.assume(ts.And(app, frame))
-		newRow = ts.Ite(ts.Eq(addLen, ts.BV(0, 64)), oldRow, nr)
+		newRow = nr
 	}
 	st.heap[n] = ts.Store(h, arr, newRow)
 	return x.w.mkSlice(arr, off, newLen, cp)
@@ -681,7 +681,8 @@ func (x *Exec) copyBuiltin(fr *Frame, ins ssa.Instruction, c *ssa.CallCommon, st
 	k := ts.Bound("k", SBV(64))
 	x.assume(ts.Quant("forall", []*Term{k}, ts.Implies(ts.Or(x.w.bvult(k, doff), x.w.bvule(x.bvOp("bvadd", doff, cnt), k)),
 		ts.Eq(ts.Select(nr, k), ts.Select(oldRow, k)))))
-	st.heap[n] = ts.Store(h, x.w.sArr(dst), ts.Ite(ts.Eq(cnt, ts.BV(0, 64)), oldRow, nr))
+	// (for cnt == 0 the frame fact already makes nr equal to the old row everywhere)
+	st.heap[n] = ts.Store(h, x.w.sArr(dst), nr)
 	return cnt
 }
 
